@@ -9,6 +9,7 @@ use crate::vcore::dumper::with_dumper;
 use crate::vcore::md::{self, Rd};
 use minidump_writer::mem_writer::Buffer;
 use minidump_writer::ptrace_dumper::Thread;
+#[cfg(feature = "internals")]
 use minidump_writer::verif_api::thread_names_stream;
 use proptest::prelude::*;
 use serde::{Deserialize, Serialize};
@@ -38,13 +39,17 @@ pub fn check(c: &Case) -> Verdict {
     }
     let res = with_dumper(|d, _| {
         d.threads = threads.iter().map(|(t, n)| Thread { tid: *t as i32, name: n.clone() }).collect();
-        let r = thread_names_stream::write(&mut buf, d);
+        #[cfg(feature = "internals")]
+        let r = Some(thread_names_stream::write(&mut buf, d));
+        #[cfg(not(feature = "internals"))]
+        let r: Option<Result<minidump_writer::minidump_format::MDRawDirectory, std::convert::Infallible>> = None;
         d.threads.clear();
         r
     });
     let dirent = match res {
-        Ok(d) => d,
-        Err(e) => return Verdict::viol("C15:write-error", format!("{e:?}")),
+        Some(Ok(d)) => d,
+        Some(Err(e)) => return Verdict::viol("C15:write-error", format!("{e:?}")),
+        None => return Verdict::Inconclusive(crate::props::c02::NO_INTERNALS.into()),
     };
     let img: Vec<u8> = buf.into();
     let named: Vec<(u32, String)> = threads.iter().filter_map(|(t, n)| n.clone().map(|n| (*t, n))).collect();
@@ -170,7 +175,19 @@ pub fn check_live(c: &crate::props::c01::Case) -> Verdict {
     use crate::vcore::world::*;
     init_scratch();
     let scratch = Target::new_scratch();
-    let bt = crate::props::c01::build(c, &scratch);
+    let mut bt = crate::props::c01::build(c, &scratch);
+    // duplicates: in half of the cases several (or all) threads carry the same name
+    let h = fp_json(c);
+    let mut dup = 0;
+    if h % 2 == 0 && bt.spec.threads.len() >= 2 {
+        let first = bt.spec.threads[0].name.clone();
+        for (i, th) in bt.spec.threads.iter_mut().enumerate().skip(1) {
+            if (h >> 8) % 2 == 0 || i % 2 == 0 {
+                th.name = first.clone();
+                dup += 1;
+            }
+        }
+    }
     let t = match Target::spawn(&bt.spec, scratch) {
         Ok(t) => t,
         Err(e) => return Verdict::Inconclusive(format!("target setup: {}", e.split(':').next().unwrap_or(""))),
@@ -178,7 +195,9 @@ pub fn check_live(c: &crate::props::c01::Case) -> Verdict {
     if !t.wait_settled(&bt.spec) {
         return Verdict::Inconclusive("target did not settle".into());
     }
-    let opts = DumpOpts { blamed: t.pid, ..Default::default() };
+    // the generated writer options (crash context, size limit, sanitize, skip-unreferenced, app memory,
+    // user mappings, direct auxv, blamed thread) must not change what the names stream says
+    let opts = crate::props::c01::opts_of(c, &bt, &t);
     let mut w = make_writer(t.pid, &opts);
     let mut dest = Dest::new(vec![], 0);
     let img = match run_dump(&mut w, &mut dest) {
@@ -209,7 +228,14 @@ pub fn check_live(c: &crate::props::c01::Case) -> Verdict {
         return Verdict::viol("C15:live:entries", format!("names stream differs from the kernel's comm values: missing {miss:?}, unexpected {extra:?}"));
     }
     let nt = named > 0 && unnamed > 0;
-    Verdict::pass_c(if nt { Some(fp_json(c)) } else { None }, if nt { vec!["mixed".into()] } else { vec![] })
+    let mut classes: Vec<String> = if nt { vec!["mixed".into()] } else { vec![] };
+    if dup > 0 {
+        classes.push("several-threads-with-the-same-name".into());
+    }
+    if opts.size_limit.is_some() {
+        classes.push("size-limit-set".into());
+    }
+    Verdict::pass_c(if nt || dup > 0 { Some(fp_json(c)) } else { None }, classes)
 }
 
 pub fn run(ctx: &mut LaneCtx) {
@@ -217,7 +243,7 @@ pub fn run(ctx: &mut LaneCtx) {
         SubSpec {
             name: "live-names",
             cases: (720, 20_000),
-            rule: "live targets with 1..24 threads whose names are unset / valid UTF-8 (0..15 bytes, multi-byte, whitespace) / not valid UTF-8; oracle = names stream pairs equal {(tid, comm trimmed)} for the listed threads whose comm is valid UTF-8, as read from /proc/pid/task/tid/comm; non-trivial = named and unnamed threads in the same dump; distinct = hash of case",
+            rule: "live targets with 1..24 threads whose names are unset / valid UTF-8 (0..15 bytes, multi-byte, whitespace) / not valid UTF-8 - in half of the cases several or all threads share one name -, dumped with generated writer options (crash context, size limit, sanitize, skip-unreferenced, app memory, user mappings, direct auxv, blamed thread); oracle = names stream pairs equal {(tid, comm trimmed)} for the listed threads whose comm is valid UTF-8, as read from /proc/pid/task/tid/comm; non-trivial = named and unnamed threads in the same dump, or duplicate names; distinct = hash of case",
             strategy: crate::props::c01::case_strategy(24).boxed(),
             max_shrink_iters: 150,
             log_current: true,
